@@ -215,14 +215,28 @@ func doSvcOp(ctx context.Context, s *Service, rec *recorder, i int, op svcOp) {
 	rec.add(vO{"ev": "call", "op": i, "kind": op.Kind, "mid": op.Mid, "msg": op.Msg, "boom": op.Kind == "proc" && strings.HasPrefix(op.Msg, "boom")})
 	switch op.Kind {
 	case "add":
-		err := s.AddMachine(ctx, "counter", op.Mid, "", nil)
+		actx := ctx
+		if i%3 == 0 {
+			// (a request whose context has ended by the time it is served: what it does to memory and what it does to the
+			// store still go together)
+			c2, cancel := context.WithCancel(ctx)
+			cancel()
+			actx = c2
+		}
+		err := s.AddMachine(actx, "counter", op.Mid, "", nil)
 		rec.add(vO{"ev": "ret", "op": i, "kind": op.Kind, "res": classifyErr(err), "walks": vO{}})
 	case "add2":
 		// a machine with the other specification; its log starts with a marker (the model tells the two kinds apart by it)
 		err := s.AddMachine(ctx, "counter2", op.Mid, "", match.Bindings{"log": []interface{}{"#2"}})
 		rec.add(vO{"ev": "ret", "op": i, "kind": op.Kind, "res": classifyErr(err), "walks": vO{}})
 	case "rem":
-		err := s.RemMachine(ctx, op.Mid)
+		rctx := ctx
+		if i%4 == 0 {
+			c2, cancel := context.WithCancel(ctx)
+			cancel()
+			rctx = c2
+		}
+		err := s.RemMachine(rctx, op.Mid)
 		rec.add(vO{"ev": "ret", "op": i, "kind": op.Kind, "res": classifyErr(err), "walks": vO{}})
 	case "proc":
 		msg := map[string]interface{}{"m": op.Msg}
